@@ -55,3 +55,21 @@ package dns
 //@   loop 1 invariant nomatch: t != TypeDS ==> handler == nil && (forall p in 0..off :: (p == 0 || sep(q, p - 1)) ==> !maphas(mux.z, q[p:]))
 //@   loop 1 decreases end ? 0 : 1
 //@   loop 1 decreases len(q) - off
+
+// one inbound message: a header that does not decode gets no reply and no handler call; the handler runs only
+// for an accepted message that decoded; a rejected or undecodable message gets FORMERR (NOTIMP when the
+// policy says so) with the request's ID and no records; an ignored one gets nothing
+//@ func (*Server).serveDNS [C14]
+//@   opt no-safety
+//@   requires srv != nil && w != nil
+//@   callsite "ServeDNS" decoded: action == MsgAccept && called("unpack") && callres("unpack") == nil
+//@   callsite "WriteMsg" reject: action == MsgReject || action == MsgRejectNotImplemented || (action == MsgAccept && called("unpack") && callres("unpack") != nil)
+// (a policy returns one of the four MsgAcceptAction constants)
+//@   assume at "switch action := srv.MsgAcceptFunc(dh); action {" policy: action == MsgAccept || action == MsgReject || action == MsgRejectNotImplemented || action == MsgIgnore
+//@   callsite "WriteMsg" replyid: arg1.Id == dh.Id
+//@   callsite "WriteMsg" replyqr: arg1.Response
+//@   callsite "WriteMsg" replyrc: arg1.Rcode == (action == MsgRejectNotImplemented ? 4 : 1)
+//@   callsite "WriteMsg" replyempty: len(arg1.Answer) == 0 && len(arg1.Ns) == 0 && len(arg1.Extra) == 0
+//@   exit hdrerr: callres("unpackMsgHdr", 2) != nil ==> !called("WriteMsg") && !called("ServeDNS")
+//@   exit ignored: action == MsgIgnore ==> !called("WriteMsg") && !called("ServeDNS")
+//@   exit handled: called("ServeDNS") || called("WriteMsg") || action == MsgIgnore || callres("unpackMsgHdr", 2) != nil
